@@ -705,3 +705,108 @@ Proof.
     destruct H as [H | H]; [left|right; exact H]. unfold string_variant. rewrite H. reflexivity.
   - apply buffer_history_irrelevant. exact HF.
 Qed.
+
+(* ------------------------------------------------------------------------------------------ *)
+(* 6. the context and the global context are never written                                      *)
+(* ------------------------------------------------------------------------------------------ *)
+
+Section CtxInv.
+  Variable W : Type.
+  Variable wr : W -> str -> option W.
+  Variable wd : world.
+
+  Definition same_ctx (s s' : state) : Prop := context s' = context s /\ global s' = global s.
+  Definition ctx_out (s : state) (r : rres W) : Prop :=
+    match r with RDone s' _ => same_ctx s s' | _ => True end.
+
+  Lemma ctx_out_trans s s1 r : same_ctx s s1 -> ctx_out s1 r -> ctx_out s r.
+  Proof.
+    intros [H1 H2]. destruct r as [s' o|e|]; cbn [ctx_out]; auto.
+    intros [H3 H4]. split; congruence.
+  Qed.
+
+  Lemma pop1_same s v s1 : pop1 s = Some (v, s1) -> same_ctx s s1.
+  Proof. unfold pop1. destruct (stack s); [discriminate|]. intros H; inversion H; subst. split; reflexivity. Qed.
+
+  Lemma pop2_same s a b s1 : pop2 s = Some (a, b, s1) -> same_ctx s s1.
+  Proof.
+    unfold pop2. destruct (stack s) as [|x [|y t]]; try discriminate.
+    intros H; inversion H; subst. split; reflexivity.
+  Qed.
+
+  Lemma store_local_context s n v : context (store_local s n v) = context s.
+  Proof. unfold store_local. destruct (loops s); reflexivity. Qed.
+  Lemma store_local_global s n v : global (store_local s n v) = global s.
+  Proof. unfold store_local. destruct (loops s); reflexivity. Qed.
+
+  Lemma emit_same s o t s' o' : emit W wr s o t = Some (s', o') -> same_ctx s s'.
+  Proof.
+    unfold emit. destruct (caps s).
+    - destruct (sink_write W wr o t); [|discriminate]. intros H; inversion H; subst. split; reflexivity.
+    - intros H; inversion H; subst. split; reflexivity.
+  Qed.
+
+  Lemma write_value_same ae s o v s' o' : write_value W wr wd ae s o v = Some (s', o') -> same_ctx s s'.
+  Proof. unfold write_value. destruct (negb ae || value_is_safe v); apply emit_same. Qed.
+
+  Ltac sc_hyps :=
+    repeat match goal with
+    | H : match pop1 ?s with _ => _ end = Some _ |- _ =>
+        destruct (pop1 s) as [[? ?]|] eqn:?; [inversion H; subst; clear H|discriminate H]
+    | H : pop1 _ = Some (_, _) |- _ => apply pop1_same in H
+    | H : pop2 _ = Some (_, _, _) |- _ => apply pop2_same in H
+    | H : emit _ _ _ _ _ = Some (_, _) |- _ => apply emit_same in H
+    | H : write_value _ _ _ _ _ _ _ = Some (_, _) |- _ => apply write_value_same in H
+    | H : same_ctx _ _ |- _ => destruct H
+    end.
+
+  Ltac sc :=
+    sc_hyps; split;
+    cbn [context global push upd_stack upd_loops upd_setvars upd_caps upd_blocks upd_block_buffer store_global] in *;
+    rewrite ?store_local_context, ?store_local_global; congruence.
+
+  Ltac cinv IH :=
+    repeat match goal with
+    | |- ctx_out _ (RFail _) => exact I
+    | |- ctx_out _ ROutOfFuel => exact I
+    | |- ctx_out _ (run _ _ _ _ _ _ _ _ _ _ _) => eapply ctx_out_trans; [|apply IH]; sc
+    | |- ctx_out _ (match run _ _ _ ?f ?t ?ae ?d ?c ?ip ?s ?o with _ => _ end) =>
+        let H := fresh "Hn" in
+        pose proof (IH t ae d c ip s o) as H;
+        destruct (run W wr wd f t ae d c ip s o); cbn [ctx_out] in H
+    | |- ctx_out _ (match ?x with _ => _ end) => destruct x eqn:?
+    end.
+
+  Lemma run_same_ctx : forall fuel tpl ae depth ch ip s o,
+    ctx_out s (run W wr wd fuel tpl ae depth ch ip s o).
+  Proof.
+    induction fuel as [|f IH]; intros tpl ae depth ch ip s o; [exact I|].
+    cbn [run]. unfold fail.
+    destruct (nth_error ch ip) as [i|]; [|split; reflexivity].
+    destruct i; cinv IH.
+  Qed.
+
+  (* render_to hands back the context and global context it was given *)
+  Lemma render_to_same_ctx fuel tpl block c g w s o :
+    render_to W wr wd fuel tpl block c g w = RDone s o -> context s = c /\ global s = Some g.
+  Proof.
+    unfold render_to. destruct block as [b|].
+    - match goal with |- context [run W wr wd fuel tpl None 0 (t_root_chunk tpl) 0 ?s0 (SinkBuf [])] =>
+        pose proof (run_same_ctx fuel tpl None 0 (t_root_chunk tpl) 0 s0 (SinkBuf [])) as H;
+        destruct (run W wr wd fuel tpl None 0 (t_root_chunk tpl) 0 s0 (SinkBuf [])) as [s1 o1|e|] end;
+        try discriminate.
+      destruct (wr w (block_buffer s1)); [|discriminate]. intros E; inversion E; subst. exact H.
+    - intros E.
+      match goal with E : run W wr wd fuel tpl None 0 (t_root_chunk tpl) 0 ?s0 _ = _ |- _ =>
+        pose proof (run_same_ctx fuel tpl None 0 (t_root_chunk tpl) 0 s0 (SinkTop w)) as H end.
+      rewrite E in H. exact H.
+  Qed.
+End CtxInv.
+
+Lemma run_same_ctx_eq W wr wd fuel tpl ae depth ch ip s o s' o' :
+  run W wr wd fuel tpl ae depth ch ip s o = RDone s' o' ->
+  context s' = context s /\ global s' = global s.
+Proof.
+  intros E. pose proof (run_same_ctx W wr wd fuel tpl ae depth ch ip s o) as H.
+  rewrite E in H. exact H.
+Qed.
